@@ -3,7 +3,11 @@
    container's invariant.  encoding/json is a parameter: [enc]/[dec] (elements and values), [kname]/[kofname]
    (member names), [jsort] (order in which a Go map is written), [iter] (order in which a Go map is ranged over),
    [grow] (capacity of a decoded slice), [sortk] (bcomparator.Sort) appear only through the premises stated in each
-   theorem.  Theorems named _refuted are about the code BEFORE the repairs 0016 / 0022 / 0025 / 0026. *)
+   theorem.  Theorems named _refuted are about the code BEFORE the repairs 0016 / 0022 / 0025 / 0026.
+   The theorems of THIS file are the round trip itself, per container abstraction (tree-backed containers as
+   sorted-insertion tables).  "The restored container obeys its own property under every further operation list" - the
+   composition with the refinement theorems of C07 / C08 / C09 / C01, on the real list / heap / ring / tree models - is
+   in PropsComposeSeq.v and PropsComposeMap.v (C15_restored_obeys_<family>, C15_tree_decoders_agree). *)
 From VF Require Import Common.Base C09.Model C09.Spec C09.Proofs C09.Proofs2 C09.Check C15.Model C15.Spec C15.Proofs C15.Proofs2 C15.Proofs3 C15.Check.
 From Coq Require Import Sorted.
 
